@@ -81,9 +81,9 @@ func c17Files(c *Ctx) []c17File {
 	if c.Thorough() {
 		dims = append(dims, [2]int{48, 40}, [2]int{70, 35}, [2]int{1, 1}, [2]int{2, 31})
 	}
-	icc := []byte("ICC-profile-bytes-odd")     // 21 bytes (odd)
+	icc := []byte("ICC-profile-bytes-odd")        // 21 bytes (odd)
 	exif := []byte("Exif\x00\x00MM\x00*\x00\x00") // 12 bytes (even)
-	xmp := []byte("<x:xmpmeta/>.")             // 13 bytes (odd)
+	xmp := []byte("<x:xmpmeta/>.")                // 13 bytes (odd)
 	for di, d := range dims {
 		w, h := d[0], d[1]
 		opaque := testImage(rng, w, h, 0, 40)
@@ -173,12 +173,134 @@ func c17Files(c *Ctx) []c17File {
 	return files
 }
 
+// c17CodecPrefixes: codec-level truncation on the real decoders.  A cut of the FILE is caught by the container
+// (chunk sizes no longer fit); here the bitstream itself is cut: for every image / ALPH chunk of a still file
+// and every proper prefix of its payload, the chunk is re-wrapped with consistent sizes (chunk size field, pad
+// byte, RIFF size) and the file decoded.  Expected, as C17_vp8_frame_prefix_monotone, C17_vp8l_decode_monotone,
+// C17_alph_monotone and C17_go_bool_reader_prefix_stable state for the models: rejected, or the same picture.
+func c17CodecPrefixes(c *Ctx, f *c17File, full apiResult) {
+	body := f.Data[12:]
+	for _, s := range chunkMap(f.Data) {
+		if s.id != "VP8 " && s.id != "VP8L" && s.id != "ALPH" {
+			continue
+		}
+		payload := f.Data[s.start+8 : s.start+8+s.size]
+		before, after := body[:s.start-12], body[s.end-12:]
+		step := 1
+		if s.size > 1500 && !c.Thorough() {
+			step = 7 // larger payloads: every 7th cut, plus the last 64
+		}
+		for k := 0; k < s.size; k++ {
+			if step > 1 && k%step != 0 && k < s.size-64 {
+				continue
+			}
+			c.D.Evaluations++
+			nb := append(append(append([]byte(nil), before...), chunkBytes(s.id, payload[:k])...), after...)
+			r := runAPIs(riffFile(nb))
+			replay := map[string]any{"kind": f.Kind, "file": hx(f.Data), "chunk": s.id, "payload_prefix_len": k, "payload_len": s.size}
+			outcome := "rejected"
+			if r.Panic != "" {
+				c.Violate("panic-on-prefix", "a decoding entry point panicked on a file whose "+s.id+" payload is a prefix: "+r.Panic, replay)
+				continue
+			}
+			if r.Dec != "E" {
+				outcome = "same-picture"
+				if r.Dec != full.Dec && s.id == "ALPH" && k == 0 {
+					// an ALPH chunk without any byte (not even its header byte) is treated as absent by the glue
+					// (webp.go: len(AlphaData) == 0), the picture decodes opaque: C16's zero-length-ALPH semantics
+					outcome = "empty-ALPH-treated-as-absent"
+				} else if r.Dec != full.Dec {
+					outcome = "DIFFERENT"
+					c.Violate("codec-payload-prefix-decodes-differently", fmt.Sprintf("%s payload cut to %d of %d bytes (sizes re-wrapped): Decode succeeds with a different picture", s.id, k, s.size), replay)
+				}
+			}
+			c.Count("codec-prefix:" + s.id + ":" + outcome)
+			c.Nontrivial("codec-prefix|" + f.Kind + "|" + s.id + "|" + outcome)
+		}
+	}
+}
+
+// c17BoolReader: internal/bitio.BoolReader read by read (correspondence with Vp8GoReader.gr_bit, including
+// the end-of-input flag) and direct evaluation of C17_go_bool_reader_prefix_stable: a run over data that ends
+// with EOF() == false returns the same bits over data ++ ext, EOF() == false.
+func c17BoolReader(c *Ctx, rng *Rand, n int) {
+	line := func(init webp.VerifBoolReaderStep, steps []webp.VerifBoolReaderStep) string {
+		show := func(s webp.VerifBoolReaderStep) string {
+			if s.EOF {
+				return "E"
+			}
+			return fmt.Sprintf("%d,%d,%d", s.Value, s.Range, s.Bits)
+		}
+		out := show(init)
+		for _, s := range steps {
+			if s.EOF {
+				out += " E"
+			} else {
+				out += fmt.Sprintf(" %d:%s", s.Bit, show(s))
+			}
+		}
+		return out
+	}
+	for i := 0; i < n; i++ {
+		r := rng.Fork()
+		data := r.Bytes(r.Pick(0, 1, 1, 2, 3, 5, 7, 8, 9, 12, 15, 16, 17, 23))
+		if len(data) > 0 && r.Intn(6) == 0 {
+			data[0] = 0xff // outside the theorem's hypothesis; the model correspondence must hold all the same
+		}
+		nreads := r.Pick(0, 1, 5, 20, 40, 80, 160)
+		probs := make([]uint8, nreads)
+		for k := range probs {
+			probs[k] = uint8(r.Pick(0, 1, 127, 128, 129, 254, 255, r.Intn(256), r.Intn(256), r.Intn(256)))
+		}
+		init, steps := webp.VerifBoolReaderRun(data, probs)
+		dh, ph := hx(data), hx(probs)
+		if dh == "" {
+			dh = "-"
+		}
+		if ph == "" {
+			ph = "-"
+		}
+		c.Case("B "+dh+" "+ph, line(init, steps))
+		eof := init.EOF
+		if len(steps) > 0 {
+			eof = steps[len(steps)-1].EOF
+		}
+		c.Count(fmt.Sprintf("boolreader:eof=%v", eof))
+		c.Nontrivial(fmt.Sprintf("boolreader|len=%d|reads=%d|eof=%v", len(data), nreads, eof))
+		// direct evaluation of the prefix statement
+		c.D.Evaluations++
+		if len(data) == 0 || data[0] == 0xff {
+			c.Count("boolreader:outside-hypothesis")
+			continue
+		}
+		ext := r.Bytes(r.Pick(1, 2, 7, 8, 9))
+		i2, s2 := webp.VerifBoolReaderRun(append(append([]byte(nil), data...), ext...), probs)
+		if !eof {
+			same := !i2.EOF
+			for k := range steps {
+				if s2[k].EOF || s2[k].Bit != steps[k].Bit || s2[k].Range != steps[k].Range {
+					same = false
+				}
+			}
+			c.Count("boolreader:prefix-statement-evaluated")
+			if !same {
+				c.Violate("go-bool-reader-prefix-differs", "a run of bitio.BoolReader that ends with EOF() == false returns other bits (or sets EOF) when bytes are appended to the data",
+					map[string]any{"data": hx(data), "ext": hx(ext), "probs": hx(probs)})
+			}
+		} else {
+			c.Count("boolreader:ran-out-of-data")
+		}
+	}
+}
+
 func main() {
 	Main("c17", func(c *Ctx) {
-		c.D.Rule = "every prefix length 0..len-1 of every generated still file (lossy Partitions 0..3, lossless opaque/alpha, lossy+ALPH raw/compressed, VP8X with ICC before and EXIF/XMP after the image); evaluation = Decode+DecodeConfig+GetFeatures on one prefix; non-trivial = distinct (file kind, chunk and part of chunk where the cut falls, outcome) triple"
+		c.D.Rule = "every prefix length 0..len-1 of every generated still file (lossy Partitions 0..3, lossless opaque/alpha, lossy+ALPH raw/compressed, VP8X with ICC before and EXIF/XMP after the image); plus every prefix of every VP8 / VP8L / ALPH payload of those files re-wrapped with consistent sizes, plus random (data, probabilities, extension) runs of bitio.BoolReader; evaluation = Decode+DecodeConfig+GetFeatures on one prefix / one re-wrapped file, or one pair of reader runs; non-trivial = distinct (file kind, chunk and part of chunk where the cut falls, outcome) triple, (file kind, chunk, outcome) for payload cuts, (data length, reads, flag) for reader runs"
 		c.D.Notes = append(c.D.Notes,
 			"direct evaluation runs the real codecs on every prefix: it covers the bit readers' end-of-stream handling (VP8 bool decoder, VP8L bit reader, ALPH), which the Coq theorems treat as a parameter of the container/glue layer",
-			"correspondence: container.NewParser on every prefix vs the extracted ParserModel.parse (result class, features, frame payload/alpha digests and lengths)")
+			"correspondence: container.NewParser on every prefix vs the extracted ParserModel.parse (result class, features, frame payload/alpha digests and lengths); bitio.BoolReader (NewBoolReader + GetBit, state and EOF() after every read) vs the extracted Vp8GoReader.gr_bit on random data / probabilities, most runs reading past the end",
+			"C17_go_bool_reader_prefix_stable is also evaluated directly on the real reader (random data, extension, probabilities)",
+			"codec-level truncation on the real decoders: every proper prefix of every VP8 / VP8L / ALPH payload of every generated still, re-wrapped with consistent chunk and RIFF sizes, is rejected or decodes to the same picture (a cut of the file itself never reaches the codecs: the container rejects it)")
 		files := c17Files(c)
 		for _, f := range files {
 			full := runAPIs(f.Data)
@@ -194,6 +316,9 @@ func main() {
 			c.Count("files")
 			c.Count("kind:" + f.Kind)
 			c.Sample(map[string]any{"kind": f.Kind, "bytes": len(f.Data), "full": full})
+			if !f.ContainerOnly {
+				c17CodecPrefixes(c, &f, full)
+			}
 			spans := chunkMap(f.Data)
 			for n := 0; n < len(f.Data); n++ {
 				p := f.Data[:n:n]
@@ -247,5 +372,11 @@ func main() {
 				c.Nontrivial(f.Kind + "|" + region + "|" + outcome)
 			}
 		}
+		// the Go boolean decoder and its end-of-input flag
+		nb := 600
+		if c.Thorough() {
+			nb = 20000
+		}
+		c17BoolReader(c, c.Rng.Fork(), nb)
 	})
 }
